@@ -4,9 +4,9 @@
 (* real Servers driven through Server.apply), with the projected state of   *)
 (* every server after the step.                                             *)
 (*   FAIL "P" = a C12 requirement fails on real behaviour (violation)       *)
-(*   FAIL "K" = it fails in a behaviour in which the asynchronous           *)
-(*              StreamDeleted announcement was overtaken / came late        *)
-(*              (culprit of the known finding; tag says which)              *)
+(*   FAIL "K" = equality with the live server fails in a behaviour in which *)
+(*              a group was rebuilt by a restore that is not history-neutral *)
+(*              (culprit of the open finding; tag restore-history)          *)
 (*   FAIL "I" = the step differs from the action as specified (drift)       *)
 EXTENDS Groups, Json
 
@@ -26,23 +26,16 @@ GroupOf(j) ==
 TraceInit ==
   LET e == Trace[1] IN
   /\ gs = [v \in Servers |-> GroupOf(e.st.gs[v])]
-  /\ pend = [v \in Servers |-> ToSet(e.st.pend[v])]
   /\ parts = e.st.parts /\ idx = e.st.idx /\ obs = e.obs
   /\ taint = {}
   /\ l = 2
 
 Bind(e) ==
   /\ gs' = [v \in Servers |-> GroupOf(e.st.gs[v])]
-  /\ pend' = [v \in Servers |-> ToSet(e.st.pend[v])]
   /\ parts' = e.st.parts /\ idx' = e.st.idx /\ obs' = e.obs
 
-SD(e) == [s |-> e.args.s, e |-> e.args.e]
-
 NewTaint(e) ==
-  (IF Overtaken' THEN {"overtaken"} ELSE {})
-  \cup (IF e.a = "RunSD" /\ gs[e.args.srv].exists /\ SDRefused(gs[e.args.srv], e.args.e) THEN {"refused"} ELSE {})
-  \cup (IF e.a = "Restore" /\ gs[e.args.srv].exists /\ ~RestoreNeutral(gs[e.args.srv]) THEN {"restored"} ELSE {})
-  \cup (IF e.a = "RunSD" /\ LateFor(e.args.srv, SD(e)) /\ ~SDRefused(gs[e.args.srv], e.args.e) THEN {"late"} ELSE {})
+  (IF e.a = "Restore" /\ gs[e.args.srv].exists /\ ~RestoreNeutral(gs[e.args.srv]) THEN {"restored"} ELSE {})
 
 PropOf(e) ==
   CASE e.a = "GetAssignments" -> P_GetAssignments(e.args.srv, e.args.c, e.args.e)
@@ -50,7 +43,7 @@ PropOf(e) ==
     [] e.a = "CreateGroup" /\ obs'.err = "precondition" -> SameGroups
     [] e.a = "CreateGroup" -> \A v \in Servers : gs'[v].exists /\ (~gs[v].exists => Members(gs'[v]) = {e.args.c})
     [] e.a = "Leave" -> P_Leave(e.args.c)
-    [] e.a = "RunSD" -> P_RunSD(e.args.srv, SD(e))
+    [] e.a = "DeleteStream" -> IF obs'.err = "precondition" THEN SameGroups ELSE P_DeleteStream(e.args.s)
     [] e.a = "Restore" -> P_Restore(e.args.srv)
     [] e.a = "Skip" -> SameGroups
     \* real one-node server (TestVerifGroupsRealRace): requests through the metadata leader API, two of
@@ -63,21 +56,17 @@ PropOf(e) ==
 
 ImplOf(e) ==
   CASE e.a = "CreateStream" -> DoCreateStream(e.args.s, e.args.n)
-    [] e.a = "DeleteStream" -> DoDeleteStream(e.args.s)
+    [] e.a = "DeleteStream" -> (IF obs'.err = "precondition" THEN UNCHANGED <<gs, parts, idx>> ELSE DoDeleteStream(e.args.s))
     [] e.a = "CreateGroup" -> DoProposeCreateGroup(e.args.c, ToSet(e.args.streams), e.args.coord)
     [] e.a = "Join" -> DoProposeJoin(e.args.c, ToSet(e.args.streams))
     [] e.a = "Leave" -> DoLeave(e.args.c)
     [] e.a = "ChangeCoordinator" -> DoChangeCoordinator(e.args.coord)
-    [] e.a = "RunSD" -> DoRunSD(e.args.srv, SD(e))
     [] e.a = "Restore" -> DoRestore(e.args.srv, e.args.order)
     [] e.a \in {"Sync", "Race", "Crash"} -> TRUE
     [] e.a = "GetAssignments" -> DoGetAssignments(e.args.srv, e.args.c, e.args.e)
-    [] OTHER -> UNCHANGED <<gs, pend, parts, idx>>
+    [] OTHER -> UNCHANGED <<gs, parts, idx>>
 
-SDTaints == {"overtaken", "refused", "late"}
-Tag == IF taint' \cap SDTaints = {} /\ "restored" \in taint' THEN "restore-history"
-       ELSE IF "late" \in taint' /\ "overtaken" \notin taint' /\ "refused" \notin taint' THEN "sd-late"
-       ELSE IF taint' # {} THEN "sd-overtaken" ELSE "-"
+Tag == IF "restored" \in taint' THEN "restore-history" ELSE "-"
 Fail(kind, e, name) == PrintT(<<"FAIL", kind, e.t, l, e.a, name, Tag>>)
 Chk(ok, kind, e, name) == IF ok THEN TRUE ELSE Fail(kind, e, name)
 \* requirement that a known finding breaks: "P" while the behaviour is clean of the culprits in `rel`
@@ -94,12 +83,12 @@ TraceNext ==
              /\ Chk(ImplOf(e), "I", e, "step")
      /\ Chk(C12_NoForeign', "P", e, "C12_NoForeign")
      \* a rebuilt group must be a valid assignment whatever its history ...
-     /\ ChkK(C12_ExactlyOne', e, "C12_ExactlyOne", SDTaints)
-     /\ ChkK(C12_AssignedExist', e, "C12_AssignedExist", SDTaints)
-     /\ ChkK(C12_Balanced', e, "C12_Balanced", SDTaints)
+     /\ Chk(C12_ExactlyOne', "P", e, "C12_ExactlyOne")
+     /\ Chk(C12_AssignedExist', "P", e, "C12_AssignedExist")
+     /\ Chk(C12_Balanced', "P", e, "C12_Balanced")
      \* ... but may differ from the live one when the history matters
-     /\ ChkK(C12_SameEpochSame', e, "C12_SameEpochSame", SDTaints \cup {"restored"})
-     /\ ChkK(C12_Converged', e, "C12_Converged", SDTaints \cup {"restored"})
+     /\ ChkK(C12_SameEpochSame', e, "C12_SameEpochSame", {"restored"})
+     /\ ChkK(C12_Converged', e, "C12_Converged", {"restored"})
      /\ Chk(ImplInv', "I", e, "ImplInv")
 
 TraceSpec == TraceInit /\ [][TraceNext]_tvars
